@@ -15,6 +15,8 @@ def extra(res, facts, entries, protos):
     for i in g.instances:
         if "footer" in i or "segment-count" in i:
             res.inst("C05.R1", i)
+    # R8: "accept iff F' == F" also forbids turning away a token that carries the expected footer: parse_raw_token refuses only for a stated cause
+    _proto.refusal_rules(res, "C05.R8", facts)
     # R6: the footer segment written by format_token is URL_SAFE_NO_PAD(F), present iff F is non-empty; R7: the PAE framing keeps the footer apart from its neighbours
     from . import c08_fpai
     if not getattr(res, "sem_ok", False):
@@ -29,7 +31,7 @@ def extra(res, facts, entries, protos):
 def run(tier):
     return _proto.run_rules(
         "C05", LEVEL, RULES,
-        {"C05.R1": 2, "C05.R2": 16, "C05.R3": 4, "C05.R5": 21, "C05.R6": 3, "C05.R7": 2},
+        {"C05.R1": 2, "C05.R2": 16, "C05.R3": 4, "C05.R5": 21, "C05.R6": 3, "C05.R7": 2, "C05.R8": 2},
         "must-pass-through on the CFG of parse_raw_token (footer gate), provenance terms of the footer component in all 16 pre-authentication encodings "
         "(caller's expected footer on consumer sides, the builder's own footer on producer sides), identity of the Footer carrier and its base64 text, footer plumbing through the 32 wrappers and setters",
         ["MAC / signature strength: a different footer under the authenticator yields a different tag", "ring verify_slices_are_equal compares length and content", "base64 URL_SAFE_NO_PAD encoding is injective"],
